@@ -16,6 +16,10 @@ def profile_for(tier):
 
 
 def build_set(chk, wsname, structs, profile):
+    from . import oracle
+    for s in structs:
+        if s.has_builder and not oracle.builder_offered(s):
+            raise B.MachineryError(f"generator: a struct of {wsname} expects a builder the reference model does not offer: {[f.ranges for f in s.fields]}")
     B.name_structs(structs, prefix=wsname.upper().replace('-', '_') + "_")
     t0 = time.time()
     ws, ok, dt, diag = B.build_machine_set(wsname, structs, profile)
@@ -27,6 +31,10 @@ def build_set(chk, wsname, structs, profile):
         key = f"{wsname}: generated code for valid declarations does not compile"
         chk.add_violation(key, "compile", key + "\n  " + "\n  ".join(errs),
                           {"engine": "build", "workspace": wsname, "profile": profile, "diagnostics": diag[-6000:]})
+        # what was explored here: the declarations handed to the compiler, and its one verdict
+        chk.states += len(structs)
+        chk.transitions += 1
+        chk.sample({"workspace": wsname, "verdict": "generated crate rejected by rustc", "first_errors": errs[:3]})
         return None
     chk.programs += len(structs)
     return ws
@@ -238,3 +246,128 @@ def c16(tier):
 
 
 PROPS['C16'] = c16
+
+
+def product_run(chk, ws, prof, families, depth, values, full_n, props="", full_w=8, label=""):
+    args = ['--depth', depth, '--values', values, '--full-n', full_n, '--full-w', full_w]
+    if families:
+        args += ['--families', ",".join(families)]
+    if props:
+        args += ['--props', props]
+    rep = B.run(ws, prof, 'product', args, out_name=f"report-{chk.pid}-product-{label}-{prof}.json")
+    if rep.get('extra', {}).get('nondeterministic'):
+        raise B.MachineryError("a stateright discovery did not reproduce when re-explained: nondeterminism in the harness")
+    pm = rep.get('extra', {}).pop('per_machine', [])
+    chk.extra.setdefault('stateright_runs', []).extend(pm if len(pm) <= 40 else pm[:40])
+    chk.add_report(rep, f"stateright:{label}:{prof}")
+    return rep, pm
+
+
+def _split_mix(structs, native):
+    return [s for s in structs if (s.n in NATIVE) == native]
+
+
+def c11(tier):
+    chk = core.Check('C11', tier)
+    prof = profile_for(tier)
+    chk.assumptions = ASSUME_REGMC + ["derives users place on the struct (PartialEq/Hash/Debug) observe the storage integer: an object whose storage differs from its re-wrap counts as distinguishable"]
+    structs = [s for s in sets.mix_set(tier) if s.n not in NATIVE]
+    ws = build_set(chk, f"mixarb-{tier}", structs, prof)
+    if ws is None:
+        return chk.finish()
+    # (a) hand sweeper: every non-native N<=16 to a fixed point (all states, all actions), strict storage
+    rep = B.run(ws, prof, 'sweep', ['--ops', 'all', '--full-n', 16, '--full-w', 8 if tier == 'quick' else 16, '--strict-storage', 1, '--oob', 1],
+                out_name=f"report-C11-sweep-{prof}.json")
+    chk.add_report(rep, f"sweep:mixarb:{prof}")
+    closed_sweep = rep.get('violation_count', 0) == 0 and rep['extra'].get('storage_bits_above_reference', 1) == 0 and rep.get('exhaustive')
+    chk.extra['sweeper_fixed_point_closed'] = bool(closed_sweep)
+    # (b) stateright fixed point for N<=12 (all states initial, no depth bound)
+    rep2, pm = product_run_named(chk, ws, prof, [s.name for s in structs if s.n <= 12], depth=0, values='full', full_n=12, label="fixedpoint")
+    for r in pm:
+        if r['closed'] is False:
+            chk.notes.append(f"fixed point NOT closed for {r['head']}: unique {r['unique_states']} of {r['initial_states']}")
+    # (c) wide bases: BFS from A(N), depth 2 with the small argument alphabet (thorough: also depth 3 with core4)
+    wide = [s.name for s in structs if s.n > 16]
+    product_run_named(chk, ws, prof, wide, depth=2, values='small', full_n=0, label="wide-d2")
+    if tier == 'thorough':
+        product_run_named(chk, ws, prof, wide, depth=3, values='core4', full_n=0, label="wide-d3")
+        product_run_named(chk, ws, prof, [s.name for s in structs if 12 < s.n <= 16], depth=0, values='small', full_n=16, label="fixedpoint16")
+    chk.closed = bool(closed_sweep) and all(r['closed'] is not False for r in pm)
+    chk.bounds.append("every non-native N<=16: all 2^N states x all actions (w<=8 all values) to a fixed point with the hand sweeper (strict storage: object == its re-wrap); "
+                      "stateright product machine: N<=12 fixed point (unique states must equal 2^N), " +
+                      ("BWq" if tier == 'quick' else "every non-native N in 17..127") + " BFS from A(N) depth 2 with the small alphabet" +
+                      (" and depth 3 with the 4-value core alphabet; N 13..16 fixed point" if tier == 'thorough' else ""))
+    return chk.finish()
+
+
+def product_run_named(chk, ws, prof, names, depth, values, full_n, label, props=""):
+    """run the product mode on a subset of the machines of a workspace (sub-spec file)"""
+    spec = json.load(open(os.path.join(ws, "spec.json")))
+    sub = {"machines": [m for m in spec["machines"] if m["name"] in set(names)], "enums": []}
+    sp = os.path.join(ws, f"spec-{label}.json")
+    json.dump(sub, open(sp, "w"))
+    out = os.path.join(ws, f"report-{chk.pid}-product-{label}-{prof}.json")
+    args = [B.runner_path(ws, prof), 'product', '--spec', sp, '--out', out, '--depth', str(depth), '--values', values, '--full-n', str(full_n)]
+    if props:
+        args += ['--props', props]
+    import subprocess
+    p = subprocess.run(args, capture_output=True, text=True)
+    if p.returncode != 0 or not os.path.exists(out):
+        raise B.MachineryError(f"runner failed ({p.returncode}): {' '.join(args)}\n{p.stdout[-2000:]}\n{p.stderr[-3000:]}")
+    rep = json.load(open(out))
+    if rep.get('extra', {}).get('nondeterministic'):
+        raise B.MachineryError("a stateright discovery did not reproduce when re-explained: nondeterminism in the harness")
+    pm = rep.get('extra', {}).pop('per_machine', [])
+    chk.extra.setdefault('stateright_runs', []).extend(pm[:12])
+    chk.add_report(rep, f"stateright:{label}:{prof}")
+    return rep, pm
+
+
+def c12(tier):
+    chk = core.Check('C12', tier)
+    prof = profile_for(tier)
+    chk.assumptions = ASSUME_REGMC + ["for N<=16 the invariant 'object == per-bit shadow' holds in every state and the state set is closed under every action, so histories of every length are covered by induction"]
+    structs = sets.mix_set(tier)
+    ws = build_set(chk, f"mix-{tier}", structs, prof)
+    if ws is None:
+        return chk.finish()
+    rep = B.run(ws, prof, 'sweep', ['--ops', 'all', '--full-n', 16, '--full-w', 8 if tier == 'quick' else 16, '--oob', 1], out_name=f"report-C12-sweep-{prof}.json")
+    chk.add_report(rep, f"sweep:mix:{prof}")
+    closed_sweep = rep.get('violation_count', 0) == 0 and rep.get('exhaustive')
+    P = "no_panic,raw_is_shadow,getters_are_shadow"
+    rep2, pm = product_run_named(chk, ws, prof, [s.name for s in structs if s.n <= 12], depth=0, values='full', full_n=12, label="fixedpoint", props=P)
+    # cross-check of the two engines on N<=12: both must have seen exactly 2^N states per machine
+    for r in pm:
+        if r['unique_states'] != (1 << r['n']) and rep2['violation_count'] == 0:
+            raise B.MachineryError(f"stateright saw {r['unique_states']} states for {r['head']}, expected {1 << r['n']}")
+    wide = [s.name for s in structs if s.n > 16]
+    product_run_named(chk, ws, prof, wide, depth=2, values='small', full_n=0, label="wide-d2", props=P)
+    if tier == 'thorough':
+        product_run_named(chk, ws, prof, wide, depth=3, values='core4', full_n=0, label="wide-d3", props=P)
+        product_run_named(chk, ws, prof, [s.name for s in structs if 12 < s.n <= 16], depth=0, values='small', full_n=16, label="fixedpoint16", props=P)
+    chk.closed = bool(closed_sweep) and all(r['closed'] is not False for r in pm)
+    chk.bounds.append("mixed layouts with overlapping fields and overlapping array elements, one per base: N<=16 (native and arbitrary) all states x all actions to a fixed point (closure => histories of every length); "
+                      "stateright: N<=12 fixed point, wide bases (" + ("BWq" if tier == 'quick' else "17..128") + ") BFS from A(N) depth 2 (small alphabet)" + (" + depth 3 (core4)" if tier == 'thorough' else "") +
+                      "; builder chain as an action on the MIXB layouts")
+    return chk.finish()
+
+
+def c13(tier):
+    chk = core.Check('C13', tier)
+    prof = profile_for(tier)
+    chk.assumptions = ASSUME_REGMC
+    structs = sets.builder_structs(tier) + [s for s in sets.mix_set(tier) if s.has_builder]
+    ws = build_set(chk, f"builder-{tier}", structs, prof)
+    if ws is None:
+        return chk.finish()
+    rep = B.run(ws, prof, 'builder', ['--full-w', 8 if tier == 'quick' else 12, '--cap', 65536 if tier == 'quick' else 1 << 22], out_name=f"report-C13-{prof}.json")
+    chk.add_report(rep, f"builder:{prof}")
+    if rep['machines'] != len(structs):
+        core.vacuous("builder machines missing")
+    chk.bounds.append("builder layouts: all compositions of N<=" + ("8" if tier == 'quick' else "10") + " bits into 1-4 fields (several declaration orders; complete / with default / read-only part / uncovered gap), "
+                      "arrays of every K for bool/u1/u2/u4 on u8/u16, K in {2,3,4,5,7,8,16,32,64,128} on wide bases, multi-range / interleaved / signed / enum / nested steps, arbitrary-int bases; "
+                      "argument tuples: full product when <= cap, otherwise one factor at a time over 4 backgrounds; oracle = fold of with_ from DEFAULT/ZERO on the implementation and REG from the declared default")
+    return chk.finish()
+
+
+PROPS.update({'C11': c11, 'C12': c12, 'C13': c13})
